@@ -146,6 +146,18 @@ func TestWorker(t *testing.T) {
 					ok = false
 				}
 			}
+			if !ok && os.Getenv("VERIF_NONREPRO_OK") != "" {
+				// engines whose runs contain choices the simulator cannot pin (the Go
+				// runtime's pick among several ready select cases): report the
+				// violation with the unminimised scenario and say so
+				p := filepath.Join(replayDir, fmt.Sprintf("%s-seed%d-run%d.replay.json", prop, seed, run))
+				res.Violation.Detail += "\n(did not reproduce on an immediate in-process replay of its tape: the run contains runtime select choices outside the simulator's control; the replay file is the unminimised scenario)"
+				fc.Violation = res.Violation
+				simrt.Must(simrt.WriteReplay(p, fc), "write replay")
+				res.Replay = p
+				emit(outLine{Type: "result", Run: run, Result: res})
+				continue
+			}
 			if !ok {
 				p := filepath.Join(replayDir, fmt.Sprintf("%s-seed%d-run%d.nonrepro.json", prop, seed, run))
 				fc.Violation = res.Violation
